@@ -783,7 +783,8 @@ def oracle_C16(rs, n, ctx):
         # smooth: unit invariance, constants, range, metadata; then solve uses the edited model
         E2 = eik(nd)(v.copy(), d, o)
         sigma = float(rs.uniform(0.3, 2.5)) * float(np.mean(d)) if rs.rand() < 0.5 else [float(rs.uniform(0.3, 2.5) * d[a]) for a in range(nd)]
-        c = float(rs.choice([0.001, 1000.0, 2.0]))
+        # unit changes from the everyday (m <-> km) to the extreme (m <-> nm): an absolute tolerance on a length shows at the extremes
+        c = float(rs.choice([0.001, 1000.0, 2.0, 1e-9, 1e9, 1e-12]))
         E3 = eik(nd)(v.copy(), tuple(x * c for x in d), [x * c for x in o])
         srep = dict(rep, sigma=sigma, c=c)
         # sigma is passed in every representation users have: float, list, and a float64 array that is reused
